@@ -77,7 +77,7 @@ Definition bigint_from_bytes_signed (b : bytes) : Z :=
 Fixpoint be_digits_pos (fuel : nat) (n : N) (acc : bytes) : bytes :=
   match fuel with
   | O => acc
-  | S f => if n =? 0 then acc else be_digits_pos f (n / 256) (n mod 256 :: acc)
+  | S f => if n =? 0 then acc else be_digits_pos f (N.shiftr n 8) (N.land n 255 :: acc)
   end.
 Definition be_digits (n : N) : bytes := be_digits_pos (S (N.to_nat (N.size n))) n [].
 
